@@ -793,6 +793,71 @@ func freeSelfClear(r *lib.Rand) *freeRun {
 	return f
 }
 
+// terminated-stays-terminated: after Terminate() the loop refuses work until it is started again, whatever no-op calls are made
+// on it meanwhile (Stop(), StopNoWait(), Terminate() again, clears)
+func freeTerminatedStays(r *lib.Rand) *freeRun {
+	f := newFreeRun("terminated-stays-terminated", "")
+	f.loop.Run(func(vm *goja.Runtime) { f.install(vm) })
+	if r.Chance(60) {
+		f.start()
+		f.sync("warm-up")
+	}
+	atomic.StoreInt32(&f.stopped, 0)
+	if !f.within("free-terminate-did-not-return", "Terminate()", 5*time.Second, f.loop.Terminate) {
+		return f
+	}
+	atomic.StoreInt32(&f.stopped, 1)
+	var calls []string
+	for i, k := 0, 1+r.Intn(3); i < k; i++ {
+		switch r.Intn(4) {
+		case 0:
+			calls = append(calls, "Stop()")
+			f.within("free-stop-did-not-return", "Stop() on a terminated loop", 3*time.Second, func() { f.loop.Stop() })
+		case 1:
+			calls = append(calls, "StopNoWait()")
+			f.loop.StopNoWait()
+		case 2:
+			calls = append(calls, "Terminate()")
+			atomic.StoreInt32(&f.stopped, 0)
+			f.within("free-terminate-did-not-return", "second Terminate()", 3*time.Second, f.loop.Terminate)
+			atomic.StoreInt32(&f.stopped, 1)
+		default:
+			calls = append(calls, "ClearTimeout(nil)")
+			f.loop.ClearTimeout(nil)
+		}
+	}
+	f.params = strings.Join(calls, "; ")
+	ran := int32(0)
+	if f.loop.RunOnLoop(func(*goja.Runtime) { atomic.AddInt32(&ran, 1) }) {
+		f.fail("free-accepted-while-terminated", "RunOnLoop returned true on a terminated loop after "+f.params)
+	}
+	if t := f.loop.SetTimeout(func(*goja.Runtime) { atomic.AddInt32(&ran, 1) }, 0); t != nil {
+		f.fail("free-accepted-while-terminated", "SetTimeout returned a handle on a terminated loop after "+f.params)
+	}
+	if i := f.loop.SetInterval(func(*goja.Runtime) { atomic.AddInt32(&ran, 1) }, time.Millisecond); i != nil {
+		f.fail("free-accepted-while-terminated", "SetInterval returned a handle on a terminated loop after "+f.params)
+	}
+	f.start()
+	f.sync("restart")
+	time.Sleep(3 * time.Millisecond)
+	if atomic.LoadInt32(&ran) != 0 {
+		f.fail("free-ran-after-terminate", "work submitted to a terminated loop ran after the restart")
+	}
+	// started again: the loop accepts and runs work like a fresh one
+	okc := make(chan struct{})
+	if !f.loop.RunOnLoop(func(*goja.Runtime) { close(okc) }) {
+		f.fail("free-refused-after-restart", "RunOnLoop returned false on a restarted loop")
+	} else {
+		select {
+		case <-okc:
+		case <-time.After(2 * time.Second):
+			f.fail("free-accepted-function-never-ran", "a function accepted by the restarted loop did not run within 2 s")
+		}
+	}
+	f.finish()
+	return f
+}
+
 // runFree executes n free-running scenarios and returns the failures (one per oracle and kind at most) and statistics
 func runFree(r *lib.Rand, n int, profile string, outPath string) ([]lib.ImplFailure, map[string]int) {
 	eventloop.VerifHook = perturbHook
@@ -800,8 +865,8 @@ func runFree(r *lib.Rand, n int, profile string, outPath string) ([]lib.ImplFail
 	stats := map[string]int{}
 	seen := map[string]bool{}
 	var out []lib.ImplFailure
-	kinds := []func(*lib.Rand) *freeRun{freeLifecycle, freeLifecycle, freeBurst, freeCount, freeStopDuringRun, freeExpiredCleared, freeSelfClear, freeStopNoWaitAtQuiescence, freeTerminateBacklog}
-	bias := map[string][]int{"overlap": {0, 4}, "fifo": {2}, "timers": {6, 5}, "count": {3, 7}, "stop": {4, 7}, "terminate": {5, 8}}[profile]
+	kinds := []func(*lib.Rand) *freeRun{freeLifecycle, freeLifecycle, freeBurst, freeCount, freeStopDuringRun, freeExpiredCleared, freeSelfClear, freeStopNoWaitAtQuiescence, freeTerminateBacklog, freeTerminatedStays}
+	bias := map[string][]int{"overlap": {0, 4}, "fifo": {2}, "timers": {6, 5}, "count": {3, 7}, "stop": {4, 7}, "terminate": {5, 8, 9}}[profile]
 	for i := 0; i < n; i++ {
 		k := r.Intn(len(kinds))
 		if r.Chance(40) {
@@ -810,7 +875,7 @@ func runFree(r *lib.Rand, n int, profile string, outPath string) ([]lib.ImplFail
 		var f *freeRun
 		seed := r.U64()
 		// a crash inside a goroutine of the library cannot be recovered: leave the scenario behind for the replay
-		lib.Breadcrumb(outPath, fmt.Sprintf("free-running scenario %d: kind index %d (0,1 lifecycle; 2 burst; 3 count; 4 stop-during-run; 5 expired-then-cleared; 6 self-clear; 7 stopnowait-at-quiescence; 8 terminate-with-backlog), scenario seed %d", i, k, seed))
+		lib.Breadcrumb(outPath, fmt.Sprintf("free-running scenario %d: kind index %d (0,1 lifecycle; 2 burst; 3 count; 4 stop-during-run; 5 expired-then-cleared; 6 self-clear; 7 stopnowait-at-quiescence; 8 terminate-with-backlog; 9 terminated-stays-terminated), scenario seed %d", i, k, seed))
 		func() {
 			defer func() {
 				if x := recover(); x != nil {
